@@ -26,6 +26,9 @@ CONST = """CONSTANTS
   MaxCount = %(maxc)d
   MaxFaults = %(faults)d
   W = %(W)d
+  MemCap = %(memcap)d
+  BigBody = {%(big)s}
+  BigK = %(bigk)d
   MaxProc = %(maxp)d
   MaxOps = %(ops)d
   GenMode = "%(gen)s"
@@ -62,7 +65,8 @@ def peers(n):
 
 
 def consts(c, **kw):
-    d = dict(N=c["N"], FL=c.get("FL", 0), forkfrom=c.get("forkfrom", 1), body=c["body"], peers=peers(c["peers"]), honest="", maxc=c["maxc"], faults=99, W=c["W"], maxp=c.get("maxp", 2048), ops=0,
+    d = dict(N=c["N"], FL=c.get("FL", 0), forkfrom=c.get("forkfrom", 1), body=c["body"], peers=peers(c["peers"]), honest="", maxc=c["maxc"], faults=99, W=c["W"], memcap=c.get("memcap", 0), big=", ".join(str(b) for b in c.get("big", ())), bigk=c.get("bigk", 2),
+             maxp=c.get("maxp", 2048), ops=0,
              gen="none", alpha="full", noops="FALSE")
     d.update(kw)
     return CONST % d
@@ -74,6 +78,8 @@ def consts(c, **kw):
 CFG_A = dict(name="A", N=5, FL=2, forkfrom=3, body=4531201, W=3, maxp=2, peers=2, maxc=2)   # main <<1,0,2,1,3>>, fork <<5,4>> at numbers 3,4
 CFG_B = dict(name="B", N=4, FL=2, forkfrom=2, body=432011, W=2, maxp=1, peers=3, maxc=2)     # main <<1,1,0,2>> (two identical bodies in a row, tight window), fork <<3,4>> at 2,3
 CFG_C = dict(name="C", N=6, FL=2, forkfrom=2, body=56102304, W=4, maxp=2, peers=2, maxc=3)  # main <<4,0,3,2,0,1>>, fork <<6,5>> at 2,3
+# the memory cap: blocks with body id 3 are large (4 KiB transaction); the cap holds W small blocks but only two once a large one was handed out
+CFG_M = dict(name="M", N=6, FL=0, forkfrom=1, body=121213, W=4, maxp=4, peers=3, maxc=2, memcap=4, big=(3,), bigk=2)   # main <<3,1,2,1,2,1>>
 
 
 def body_list(c):
@@ -82,7 +88,7 @@ def body_list(c):
 
 def cfg_of_init(init):
     body = sum(b * 10 ** k for k, b in enumerate(init["body"]))
-    return dict(name="R", N=init["n"], FL=init.get("fl", 0), forkfrom=init.get("forkfrom", 1), body=body, W=init["w"], maxp=init.get("maxp", 2048), peers=max(2, len(init.get("peers", []))),
+    return dict(name="R", memcap=init.get("memcap", 0), big=tuple(init.get("big", ())), N=init["n"], FL=init.get("fl", 0), forkfrom=init.get("forkfrom", 1), body=body, W=init["w"], maxp=init.get("maxp", 2048), peers=max(2, len(init.get("peers", []))),
                 maxc=init.get("maxc", 2))
 
 
@@ -102,7 +108,10 @@ def nontrivial(beh):
 
 def design(ctx):
     quick = ctx.quick
-    runs = [(CFG_A, {})]
+    CFG_MS = dict(CFG_M, name="Ms", N=4, body=1213, W=3, memcap=3, peers=2)       # <<3,1,2,1>>, window 3 shrinking to 2
+    runs = [(CFG_A, {}), (CFG_MS, {})]
+    if not quick:
+        runs += [(dict(CFG_M, name="M5", peers=2, N=5, body=21213), {})]
     if not quick:
         runs += [(dict(CFG_A, peers=3), {}), (CFG_B, {}), (CFG_C, {})]
     violated = None
@@ -227,21 +236,31 @@ def run(ctx):
                         "non-linking / wrongly numbered header in the middle, a competing fork starting below the queued prefix, and a chunk beyond the head; "
                         "the very first batch always starts at the origin (as processHeaders does)",
                         "CancelBodies is only applied to the request a peer currently holds (fetchParts never calls it otherwise)",
-                        "result window of 2-4 slots and a Results batch limit of 1-2 items (blockCacheItems and maxResultsProcess are variables, scaled by the verif constructor); the memory-based throttle is not reachable with chains this small",
+                        "result window of 2-4 slots and a Results batch limit of 1-2 items (blockCacheItems and maxResultsProcess are variables, scaled by the verif constructor); the memory cap of the window is scaled too (configuration M: blockCacheMemory = 1.5 x the largest block, blockCacheSizeWeight = 1, one body id with a 4 KiB transaction)",
                         "expiry is made deterministic by ageing fetchRequest.Time of the chosen request by two hours (timeout one hour)",
                         "bounded liveness: after every behaviour outstanding requests time out and a fresh honest peer reserves and delivers completely; the range must complete within 4N+8 rounds"]
     quick = ctx.quick
     mviol = design(ctx)
     wit = witnesses()
-    plan = [(CFG_A, dict(g1_depth=6 if quick else 8, g1_noop_depth=4, sim_num=250 if quick else 1500,
+    plan = [(CFG_A, dict(g1_depth=6 if quick else 8, g1_noop_depth=3 if quick else 4, sim_num=150 if quick else 1500,
                          sim_depth=30, sim_keep=1500 if quick else 20000)),
             (CFG_B, dict(g1_depth=0 if quick else 7, g1_noop_depth=0, sim_num=100 if quick else 1000, sim_depth=26,
                          sim_keep=1000 if quick else 15000))]
     if not quick:
         plan.append((CFG_C, dict(g1_depth=6, g1_noop_depth=0, sim_num=1000, sim_depth=36, sim_keep=15000)))
+    plan.append((CFG_M, dict(g1_depth=0, g1_noop_depth=0, sim_num=100 if quick else 1000, sim_depth=26, sim_keep=1000 if quick else 15000)))
+    # goal-directed generation (cf. C20): the situation in which the memory cap has shrunk the window below the number of completed
+    # results behind a head block that went back to the task queue
+    gm = ctx.tlc_must("DlQueue", "SPECIFICATION Spec\nINVARIANT NoMemGoal\nVIEW GView\nCHECK_DEADLOCK FALSE\n" +
+                      consts(CFG_M, ops=9, gen="leaf", alpha="small"), name="Goal_memcap", timeout=900)
+    goal_behs = [v["h"] for v in gm.printed if isinstance(v, dict) and v.get("kind") == "CEX"][:1]
+    if not goal_behs:
+        ctx.note("goal memcap not reached")
     first = None
     for c, kw in plan:
         behs = generate(ctx, c, **kw)
+        if c is CFG_M:
+            behs = goal_behs + behs
         if c is CFG_A:
             behs = [b for b in wit if b[0]["n"] == c["N"] and b[0]["body"] == body_list(c) and b[0]["w"] == c["W"]] + behs
         for b in behs[:2]:
